@@ -200,6 +200,24 @@ def r15e(sc: Scanner, chk: Check, rule: str):
             # loop contains the setattr?
             if any(x is call for x in ast.walk(lp.stmt)):
                 scan_loops.append(lp)
+    line_loops = [lp for lp in loops if norm(lp.stmt.iter).endswith(".splitlines()") or ".split(" in norm(lp.stmt.iter) and "\\n" in norm(lp.stmt.iter)]
+    outside = [call for n, call in sc.setattrs if not any(any(x is call for x in ast.walk(lp.stmt)) for lp in line_loops)]
+    for call in outside:
+        # applied after the scan from a collection: accepted only for ONE loop over a list of (name, value) pairs built in scan order
+        lp = None
+        for l2 in loops:
+            if any(x is call for x in ast.walk(l2.stmt)):
+                lp = l2
+        coll = norm(lp.stmt.iter) if lp is not None else None
+        ordered = False
+        if lp is not None and isinstance(lp.stmt.iter, ast.Name) and len(outside) == 1:
+            ds = sc.rd.at(lp.id, lp.stmt.iter.id)
+            ordered = bool(ds) and all(d.kind == "assign" and isinstance(d.value, ast.List) and not d.value.elts for d in ds) and \
+                any(isinstance(c, ast.Call) and norm(c.func) == f"{lp.stmt.iter.id}.append" for c in ast.walk(sc.fn))
+        chk.judge(rule, f"compiler:compile_code:{norm(call)} is applied in source order", ordered,
+                  f"directives are applied after the scan from {coll or 'outside any loop'}" + ("" if ordered else
+                  ": a set, or separate passes for enabling and disabling names, forget the order in which the directives were written, so the last directive for an option does not win"),
+                  {"collection": coll}, f"{sc.mod.path}:{call.lineno} in compile_code")
     if not scan_loops:
         raise AnalysisError("compile_code: directive application is not inside a loop over the source lines")
     # option reads: options.<field> loads, or options passed as a call argument, outside the scan loops
